@@ -77,6 +77,24 @@ def relation_traces(ctx, T):
                          "x": [v or [0, 0] for v in ma], "xb": [v or [0, 0] for v in mb],
                          "points": {"in": [float(v) for v in a[:40]], "out": [float(v) for v in b[:40]]}})
             ctx.count({"t": lab, "d": kind}, True)
+    # instance reuse: built and used with a neighbouring setting, then re-parameterised (4 styles) to this one
+    nchain = 0
+    for label, prev, cur, style in tc.reuse_chains(tc.catalogue(T)):
+        try:
+            t = prev[1].fresh()
+            tc.quiet(t.backward, tc.quiet(t.forward, prev[2].copy()))
+            tc.reparam(t, cur[1], style)
+            xs = cur[2]
+            xb = tc.quiet(t.backward, tc.quiet(t.forward, xs.copy()))
+        except Exception as e:
+            ctx.violation("%s:exception" % label.split("(")[0], "%s re-parameterised from %s raised %r" % (label, prev[0], e), {"transform": label})
+            continue
+        nchain += 1
+        ma, mb = [tc.mant(v) for v in xs], [tc.mant(v) for v in xb]
+        recs.append({"kind": "rt", "label": "%s<-%s@%s" % (label, prev[0], tc.REPARAM_STYLES[style]), "dir": "x", "bad": any(v is None for v in ma + mb),
+                     "x": [v or [0, 0] for v in ma], "xb": [v or [0, 0] for v in mb],
+                     "points": {"in": [float(v) for v in xs[:40]], "out": [float(v) for v in xb[:40]]}})
+    ctx.part("instance_reuse", chains=nchain, styles=tc.REPARAM_STYLES)
     # Softmax: rows with positive entries summing below 1
     sm = T.Softmax()
     rows = tc.softmax_rows()
